@@ -248,6 +248,7 @@ func (engine *Engine) Finalized() thor.Bytes32 {
 // Justified returns the justified checkpoint.
 func (engine *Engine) Justified() (thor.Bytes32, error) {
 	head := engine.repo.BestBlockSummary().Header
+	verifJustifiedGap()
 	finalized := engine.Finalized()
 
 	// if head is in the first epoch and not concluded yet
